@@ -103,133 +103,156 @@ Section Writer.
     | v :: r => do a <- prim_write e p v; do b <- prim_write_all p r; Ok (a ++ b)
     end.
 
+  (* ---------- loops, as combinators over an element writer ---------- *)
+  (* an element writer: the value and the absolute position at which it starts -> the bytes it appends *)
+  Definition wfn := value -> Z -> result (list Z).
+
+  (* sum(cls._write(stream, entry) for entry in array) *)
+  Fixpoint wseq (wr : wfn) (vs : list value) (pos : Z) : result (list Z) :=
+    match vs with
+    | [] => Ok []
+    | x :: r => do a <- wr x pos; do b <- wseq wr r (pos + zlen a); Ok (a ++ b)
+    end.
+  (* cls.type._write_array by element class: bulk pack for packed scalars, else element by element *)
+  Definition write_list (el : ty) (wr : wfn) (vs : list value) (pos : Z) : result (list Z) :=
+    match el with
+    | TPrim (PInt _ _ true as p) _ | TPrim (PFloat _ as p) _ => prim_write_all p vs
+    | TEnum (PInt _ _ true as p) _ _ _ => prim_write_all p vs
+    | _ => wseq wr vs pos
+    end.
+  (* BaseArray._write, CharArray._write, WcharArray._write *)
+  Definition write_array (el : ty) (wr : wfn) (len : alen) (v : value) (pos : Z) : result (list Z) :=
+    match el, v with
+    | TPrim PChar _, VBytes bs =>
+      (* CharArray._write: no size check; null-terminated appends \x00 *)
+      match len with LNull => Ok (bs ++ [0]) | _ => Ok bs end
+    | TPrim PWchar _, VWstr cps =>
+      match len with LNull => utf16_encode (prim_endian PWchar e) (cps ++ [0]) | _ => utf16_encode (prim_endian PWchar e) cps end
+    | TPrim PChar _, _ | TPrim PWchar _, _ => Err EType
+    | _, VList vs =>
+      match len with
+      | LNull =>
+        (* _write_0: [*array, default] through _write_array *)
+        write_list el wr (vs ++ [default_value el]) pos
+      | LFixed n =>
+        (* `not cls.dynamic and num_entries != len(data)`: dynamic when the element type is dynamic *)
+        match ty_size c el with
+        | Some _ => if n =? Z.of_nat (length vs) then write_list el wr vs pos else Err EArraySize
+        | None => write_list el wr vs pos
+        end
+      | LExpr _ _ => write_list el wr vs pos
+      end
+    | _, _ => Err EType
+    end.
+
+  (* what the structure write loop needs to know about a field *)
+  Record wmeta := mkWM { wm_name : string; wm_bits : option Z; wm_storage : option (prim * Z); wm_align : Z;
+                         wm_isprim : bool;            (* the field type is a scalar class (is_bitbuffer_boundary compares classes) *)
+                         wm_default : value }.
+  (* StructureMetaType._write's loop over the fields (each with its writer), with the offsets the layout computed *)
+  Fixpoint wstruct_loop (aligned : bool) (start : Z) (vals : list (string * value)) (items : list (wmeta * wfn)) (offs : list (option Z))
+           (out : list Z) (wb : wbuf) {struct items} : result (list Z * wbuf) :=
+    match items, offs with
+    | [], _ => Ok (out, wb)
+    | (m, wr) :: r, o :: ro =>
+      let fa := wm_align m in
+      let isbits := match wm_bits m with Some nb => negb (nb =? 0) | None => false end in
+      let storage := wm_storage m in
+      (* flush when leaving a bit unit or moving to another storage type *)
+      do fl <- (match wb_type wb with
+                | Some _ => if negb isbits || negb (storage_eqb (wb_type wb) storage)
+                            then do x <- wb_flush wb; Ok (x, wb_empty) else Ok ([], wb)
+                | None => Ok ([], wb)
+                end);
+      let '(flushed, wb1) := fl in
+      let out1 := out ++ flushed in
+      let cur := start + zlen out1 in
+      let pad1 := match o with Some fo => if cur <? start + fo then zeros (start + fo - cur) else [] | None => [] end in
+      let cur1 := cur + zlen pad1 in
+      let pad2 :=
+        match o with
+        | None =>
+          if aligned then
+            (* is_bitbuffer_boundary compares bb._type with field_type (the enum class itself for enum fields) *)
+            let same_as_field := if wm_isprim m then storage_eqb (wb_type wb1) storage else false in
+            match wb_type wb1 with
+            | None => zeros (pad_to cur1 fa)
+            | Some _ => if (wb_rem wb1 =? 0) || negb same_as_field then zeros (pad_to cur1 fa) else []
+            end
+          else []
+        | Some _ => []
+        end in
+      let out2 := out1 ++ pad1 ++ pad2 in
+      let fv := match lookup_field (wm_name m) vals with Some x => x | None => wm_default m end in
+      if isbits then
+        do z <- enum_int fv;
+        do w <- wb_write wb1 storage z (match wm_bits m with Some nb => nb | None => 0 end);
+        wstruct_loop aligned start vals r ro (out2 ++ fst w) (snd w)
+      else
+        do bs <- wr fv (start + zlen out2);
+        wstruct_loop aligned start vals r ro (out2 ++ bs) wb1
+    | _ :: _, [] => Err EType
+    end.
+
+  (* UnionMetaType._write: which member is written. Fields sorted by size, largest first (stable); anonymous structures are
+     skipped in the first pass and the LAST one met in sorted order (the smallest; ties: last in order) is the fallback *)
+  Fixpoint union_pick (fs : list field) (best : option (field * Z)) (anon : option field) : option (field * Z) * option field :=
+    match fs with
+    | [] => (best, anon)
+    | (Fld _ a ft _ _ as f) :: r =>
+      let s := match ty_size c ft with Some k => k | None => 0 end in
+      let is_anon_struct := a && match ft with TStruct _ _ _ | TUnion _ _ _ => true | _ => false end in
+      union_pick r (if is_anon_struct then best
+                    else match best with Some (_, bs) => if bs <? s then Some (f, s) else best | None => Some (f, s) end)
+                   (if is_anon_struct
+                    then match anon with
+                         | Some af =>
+                           let asz := match ty_size c (f_ty af) with Some k => k | None => 0 end in
+                           if asz <? s then anon else Some f
+                         | None => Some f
+                         end
+                    else anon)
+    end.
+  (* the writer of the first member called n *)
+  Fixpoint writer_of (n : string) (items : list (string * wfn)) : wfn :=
+    match items with
+    | [] => fun _ _ => Err EType
+    | (n0, wr) :: r => if String.eqb n0 n then wr else writer_of n r
+    end.
+
+  Definition wmeta_of (f : field) : wmeta :=
+    mkWM (f_name f) (f_bits f) (bit_storage (f_ty f)) (let a := ty_align c (f_ty f) in if a =? 0 then 1 else a)
+         (match f_ty f with TPrim _ _ => true | _ => false end) (default_value (f_ty f)).
+
   Fixpoint write_ty (t : ty) (v : value) (pos : Z) {struct t} : result (list Z) :=
     match t with
     | TPrim p _ => prim_write e p v
     | TEnum b _ _ _ => prim_write e b v                     (* cls.type._write(stream, data.value) *)
     | TPtr _ => prim_write e (c_ptr c) v
-    | TArr el len =>
-      (* sum(cls._write(stream, entry) for entry in array) *)
-      let seq := (fix go (vs : list value) (pos : Z) : result (list Z) :=
-                    match vs with
-                    | [] => Ok []
-                    | x :: r => do a <- write_ty el x pos; do b <- go r (pos + zlen a); Ok (a ++ b)
-                    end) in
-      let write_list (vs : list value) : result (list Z) :=
-        match el with
-        | TPrim (PInt _ _ true as p) _ | TPrim (PFloat _ as p) _ => prim_write_all p vs
-        | TEnum (PInt _ _ true as p) _ _ _ => prim_write_all p vs
-        | _ => seq vs pos
-        end in
-      match el, v with
-      | TPrim PChar _, VBytes bs =>
-        (* CharArray._write: no size check; null-terminated appends \x00 *)
-        match len with LNull => Ok (bs ++ [0]) | _ => Ok bs end
-      | TPrim PWchar _, VWstr cps =>
-        match len with LNull => utf16_encode (prim_endian PWchar e) (cps ++ [0]) | _ => utf16_encode (prim_endian PWchar e) cps end
-      | TPrim PChar _, _ | TPrim PWchar _, _ => Err EType
-      | _, VList vs =>
-        match len with
-        | LNull =>
-          (* _write_0: [*array, default] through _write_array *)
-          write_list (vs ++ [default_value el])
-        | LFixed n =>
-          (* `not cls.dynamic and num_entries != len(data)`: dynamic when the element type is dynamic *)
-          match ty_size c el with
-          | Some _ => if n =? Z.of_nat (length vs) then write_list vs else Err EArraySize
-          | None => write_list vs
-          end
-        | LExpr _ _ => write_list vs
-        end
-      | _, _ => Err EType
-      end
+    | TArr el len => write_array el (write_ty el) len v pos
     | TStruct _ fs aligned =>
       match layout_struct c aligned fs, v with
       | Err er, _ => Err er
       | Ok lay, VStruct vals _ =>
-        let start := pos in
-        do r <-
-          (fix go (fs : list field) (offs : list (option Z)) (out : list Z) (wb : wbuf) : result (list Z * wbuf) :=
-             match fs, offs with
-             | [], _ => Ok (out, wb)
-             | Fld n _ ft fb _ :: r, o :: ro =>
-               let fa := (let a := ty_align c ft in if a =? 0 then 1 else a) in
-               let isbits := match fb with Some nb => negb (nb =? 0) | None => false end in
-               let storage := bit_storage ft in
-               (* flush when leaving a bit unit or moving to another storage type *)
-               do fl <- (match wb_type wb with
-                         | Some _ => if negb isbits || negb (storage_eqb (wb_type wb) storage)
-                                     then do x <- wb_flush wb; Ok (x, wb_empty) else Ok ([], wb)
-                         | None => Ok ([], wb)
-                         end);
-               let '(flushed, wb1) := fl in
-               let out1 := out ++ flushed in
-               let cur := start + zlen out1 in
-               let pad1 := match o with Some fo => if cur <? start + fo then zeros (start + fo - cur) else [] | None => [] end in
-               let cur1 := cur + zlen pad1 in
-               let pad2 :=
-                 match o with
-                 | None =>
-                   if aligned then
-                     (* is_bitbuffer_boundary compares bb._type with field_type (the enum class itself for enum fields) *)
-                     let same_as_field := match ft with TPrim _ _ => storage_eqb (wb_type wb1) storage | _ => false end in
-                     match wb_type wb1 with
-                     | None => zeros (pad_to cur1 fa)
-                     | Some _ => if (wb_rem wb1 =? 0) || negb same_as_field then zeros (pad_to cur1 fa) else []
-                     end
-                   else []
-                 | Some _ => []
-                 end in
-               let out2 := out1 ++ pad1 ++ pad2 in
-               let fv := match lookup_field n vals with Some x => x | None => default_value ft end in
-               if isbits then
-                 do z <- enum_int fv;
-                 do w <- wb_write wb1 storage z (match fb with Some nb => nb | None => 0 end);
-                 go r ro (out2 ++ fst w) (snd w)
-               else
-                 do bs <- write_ty ft fv (start + zlen out2);
-                 go r ro (out2 ++ bs) wb1
-             | _ :: _, [] => Err EType
-             end) fs (l_offs lay) [] wb_empty;
+        do r <- wstruct_loop aligned pos vals (map (fun f => (wmeta_of f, write_ty (f_ty f))) fs) (l_offs lay) [] wb_empty;
         let '(out, wb) := r in
         do fl <- wb_flush wb;
         let out' := out ++ fl in
-        if aligned then Ok (out' ++ zeros (pad_to (start + zlen out') (l_align lay))) else Ok out'
+        if aligned then Ok (out' ++ zeros (pad_to (pos + zlen out') (l_align lay))) else Ok out'
       | Ok _, _ => Err EType
       end
     | TUnion _ fs aligned =>
       let lay := layout_union c aligned fs in
+      let items := map (fun f => (f_name f, write_ty (f_ty f))) fs in
       match l_size lay, v with
       | None, _ => Err EUnsupported                          (* "Writing dynamic unions is not yet supported" *)
       | Some sz, VUnion _ vals =>
-        (* fields sorted by size, largest first (stable); anonymous structs skipped in the first pass *)
-        let pick := (fix go (fs : list field) (best : option (field * Z)) (anon : option field) : option (field * Z) * option field :=
-                       match fs with
-                       | [] => (best, anon)
-                       | (Fld _ a ft _ _ as f) :: r =>
-                         let s := match ty_size c ft with Some k => k | None => 0 end in
-                         let is_anon_struct := a && match ft with TStruct _ _ _ | TUnion _ _ _ => true | _ => false end in
-                         go r (if is_anon_struct then best
-                               else match best with Some (_, bs) => if bs <? s then Some (f, s) else best | None => Some (f, s) end)
-                              (if is_anon_struct
-                               then match anon with
-                                    | Some af => (* the loop keeps the LAST anonymous struct it meets in sorted order: the smallest; ties: last in order *)
-                                      let asz := match ty_size c (f_ty af) with Some k => k | None => 0 end in
-                                      if asz <? s then anon else Some f
-                                    | None => Some f
-                                    end
-                               else anon)
-                       end) in
-        let '(best, anon) := pick fs None None in
+        let '(best, anon) := union_pick fs None None in
         do first <-
           (match best with
-           | Some (Fld n _ ft _ _, _) =>
+           | Some (Fld n _ _ _ _, _) =>
              match lookup_field n vals with
-             | Some x => (fix wr (fs0 : list field) : result (list Z) :=
-                            match fs0 with
-                            | [] => Err EType
-                            | Fld n0 _ ft0 _ _ :: r0 => if String.eqb n0 n then write_ty ft0 x pos else wr r0
-                            end) fs
+             | Some x => writer_of n items x pos
              | None => Err EKey                              (* getattr(data, name) *)
              end
            | None => Ok []
@@ -238,11 +261,7 @@ Section Writer.
           (match first, anon with
            | [], Some (Fld n _ _ _ _) =>
              match lookup_field n vals with
-             | Some x => (fix wr (fs0 : list field) : result (list Z) :=
-                            match fs0 with
-                            | [] => Err EType
-                            | Fld n0 _ ft0 _ _ :: r0 => if String.eqb n0 n then write_ty ft0 x pos else wr r0
-                            end) fs
+             | Some x => writer_of n items x pos
              | None => Err EKey
              end
            | _, _ => Ok first
